@@ -210,3 +210,47 @@ def explore(check, tier, cap_s=None, nproc=None):
     merged["failures"].sort(key=lambda f: f["index"])
     merged["wall_s"] = time.time() - t0
     return merged
+
+
+def _map_worker(cases, w, nw, build, horizon_ms, q):
+    try:
+        rn = R.Runner(build=build, horizon_ms=horizon_ms)
+        mine = [(i, c) for i, c in enumerate(cases) if i % nw == w]
+        out = []
+        for k in range(0, len(mine), 24):
+            chunk = mine[k:k + 24]
+            cs = []
+            for i, c in chunk:
+                c = dict(c)
+                c["id"] = i
+                cs.append(c)
+            rs = rn.run_batch(cs)
+            for (i, _), r in zip(chunk, rs):
+                out.append((i, r))
+        rn.close()
+        q.put((w, out, None))
+    except Exception:
+        q.put((w, [], traceback.format_exc()))
+
+
+def map_cases(cases, build="checked", horizon_ms=5000, nproc=None):
+    """run a list of cases in parallel; returns results in input order"""
+    nproc = min(nproc or NPROC, max(1, len(cases)))
+    ctx = mp.get_context("fork")
+    q = ctx.Queue()
+    procs = [ctx.Process(target=_map_worker, args=(cases, w, nproc, build, horizon_ms, q)) for w in range(nproc)]
+    for p in procs:
+        p.start()
+    res = [None] * len(cases)
+    errs = []
+    for _ in procs:
+        w, out, err = q.get()
+        if err:
+            errs.append(err)
+        for i, r in out:
+            res[i] = r
+    for p in procs:
+        p.join()
+    if errs:
+        raise RuntimeError("map_cases worker failed:\n" + errs[0])
+    return res
